@@ -27,6 +27,7 @@ const (
 	c03RDispatch = "C03.A1-dispatch"
 	c03RRoute    = "C03.A1-route"
 	c03RAccept   = "C03.S-accept"
+	c03RAlias    = "C03.O-alias"
 	c03RKey      = "C03.S-key"
 	c03RNonce    = "C03.S-nonce"
 	c03RTag      = "C03.S-tag"
@@ -66,7 +67,8 @@ func checkC03(c *Ctx) {
 		"(A1-dispatch) every name listed by SupportedSymmetric/Asymmetric/SignatureAlgorithms reaches, in both directions of its family dispatcher and of the generic Encrypt/Decrypt, a return that can carry output; " +
 		"(A1-route) on that path exactly the primitives the name stands for are reached (CBC with/without PKCS#7, GCM, the RFC 7518 CBC-HMAC constructor of the right strength, RFC 3394 wrap, ChaCha20/XChaCha20-Poly1305, RSA PKCS#1 v1.5 / OAEP / PSS with the SHA variant in the name, ECDSA, Ed25519), matching in both directions, and they receive the caller's nonce, message(+tag), associated data / OAEP label, digest and signature (roles told apart by length); " +
 		"(S-accept) right-sized inputs are not rejected by a size guard, reach no panicking precondition of crypto/cipher, and the returned ciphertext/tag have the lengths the decrypting side insists on; " +
-		"(S-key/S-nonce/S-tag/S-length/S-unsupported) a key, nonce, tag, plaintext/ciphertext length or algorithm name of the wrong size/kind makes every path return the package sentinel without output and without reaching a panicking precondition; the three ECDSA names are distinguishable on their path (otherwise a key on the wrong curve cannot be refused); " +
+		"(O-alias) no slice returned by EncryptSymmetric/DecryptSymmetric shares its backing store with a caller-supplied []byte argument (AEAD Seal/Open results are taken to share dst's storage); " +
+		"(S-key/S-nonce/S-tag/S-length/S-unsupported) a key, nonce, tag, plaintext/ciphertext length or algorithm name of the wrong size/kind makes every path return the package sentinel without output and without reaching a panicking precondition; the three ECDSA names are distinguishable on their path, and with an ECDSA key whose curve is known (P-224/256/384/521) ES256/ES384/ES512 accept exactly the key on P-256/P-384/P-521 and refuse the others with ErrKeyTypeMismatch (decided when the code consults the curve through elliptic.Curve.Params / elliptic.P*() / the jwk Crv() accessor, otherwise UNDECIDED); " +
 		"(T-reject) if the authenticating/verifying primitive (AEAD.Open, hmac.Equal, key-unwrap integrity check, rsa.Verify*/Decrypt*, ecdsa/ed25519 verify) reports failure no path returns success; " +
 		"(AEAD-cbc-hmac) the objects returned by aescbcaead's exported constructors (found by interpreting the constructors; their type, fields and helper methods are resolved through the dynamic type, no unexported name is used) reject wrong key sizes; their Open rejects wrong nonce sizes, partial blocks, short inputs and tag mismatches with an error instead of panicking and compares all tagSize bytes of the received and of the computed tag (16/24/32); Seal/Open key AES with ENC_KEY_LEN bytes, HMAC with MAC_KEY_LEN bytes and the RFC 7518 hash and feed the MAC with A || IV || E || AL (AL = bit length of A, always present) for empty, nil and non-empty associated data; NonceSize/Overhead report 16 / the tag size; " +
 		"(KW-rfc3394) aeskw.Wrap/Unwrap reject inputs that are not whole 64-bit blocks / too short with an error instead of panicking or silently ignoring bytes, fail closed on the IV check, which compares all 8 bytes of A, return len+8 / len-8 bytes, and in both the loop-variant step counter (followed into same-package helpers, closures and captured variables) reaches a big-endian byte encoding (binary.BigEndian.PutUintN/AppendUintN or single-byte stores of t>>k) with at least its low 32 bits — a narrowing of t to 8/16 bits or a little-endian encoding is reported, shapes the bit-flow analysis cannot classify are UNDECIDED; " +
@@ -84,7 +86,8 @@ func checkC03(c *Ctx) {
 	r.Rule(c03RDispatch, "every listed algorithm name reaches an output-carrying return in both directions of its family dispatcher and of the generic Encrypt/Decrypt", 116)
 	r.Rule(c03RRoute, "the success path of every listed name reaches exactly the primitives (and hash) the name stands for, matching in both directions", 68)
 	r.Rule(c03RAccept, "right-sized key/nonce/tag/message are accepted and reach no panicking precondition", 38)
-	r.Rule(c03RKey, "wrong key size or kind: every path returns ErrKeyTypeMismatch; the ECDSA names are distinguishable (curve binding possible)", 70)
+	r.Rule(c03RAlias, "the slices EncryptSymmetric/DecryptSymmetric return do not share storage with the caller's plaintext/ciphertext/nonce/tag/associated-data arguments (a returned value must stay what it is when the caller reuses its own buffers: D(E(m)) = m also when m's buffer is encrypted twice)", 38)
+	r.Rule(c03RKey, "wrong key size or kind: every path returns ErrKeyTypeMismatch; the ECDSA names are distinguishable and ES256/ES384/ES512 accept exactly keys on P-256/P-384/P-521", 76)
 	r.Rule(c03RNonce, "wrong nonce size: every path returns ErrInvalidNonce, no panicking primitive is reached", 32)
 	r.Rule(c03RTag, "wrong tag size: every path returns ErrInvalidTag", 10)
 	r.Rule(c03RLength, "plaintext/ciphertext that is not a whole number of blocks is rejected with the length sentinel (CBC) / an error (key wrap)", 12)
@@ -217,7 +220,9 @@ func (e *c03Env) args(fn *ssa.Function, alg string, lens ...int64) []c03V {
 			out = append(out, c03U())
 		case *types.Slice:
 			if k < len(lens) {
-				out = append(out, c03SliceV(lens[k]))
+				v := c03SliceV(lens[k])
+				v.Ref = pa // the caller's buffer: lets the rules see whether an output shares its storage
+				out = append(out, v)
 			} else {
 				out = append(out, c03SliceV(-1))
 			}
@@ -759,7 +764,7 @@ func (e *c03Env) checkSymmetric(names []string, enc, dec, gEnc, gDec *ssa.Functi
 				msgLens = ctLens
 			}
 			// dispatch (family dispatcher and generic one) + accept + route
-			var acc c03Verdict
+			var acc, alias c03Verdict
 			var base c03Run
 			for k, ml := range msgLens {
 				run := e.run(mk(), d.fn, argsFor(d.fn, ml, nonce, tag), fmt.Sprintf("key %d, nonce %d, tag %d, message %d bytes", spec.key, nonce, tag, ml))
@@ -788,6 +793,19 @@ func (e *c03Env) checkSymmetric(names []string, enc, dec, gEnc, gDec *ssa.Functi
 					}
 				}
 				acc.merge(w)
+				for _, o := range run.outs {
+					if !c03Success(o) {
+						continue
+					}
+					for ri, rv := range o.Res {
+						pa, isParam := rv.Ref.(*ssa.Parameter)
+						if rv.K != c03Slice || !isParam || pa.Parent() != d.fn || alias.bad != "" {
+							continue
+						}
+						alias.bad = fmt.Sprintf("%s: result #%d shares the storage of the caller's argument %q (%s): the returned bytes change when the caller reuses that buffer, e.g. when the same message is encrypted a second time — neither ciphertext decrypts to the message any more", run.desc, ri, pa.Name(), e.describe(o))
+					}
+				}
+				alias.n += len(run.outs)
 				if k == len(msgLens)-1 {
 					base = run
 				}
@@ -818,6 +836,7 @@ func (e *c03Env) checkSymmetric(names []string, enc, dec, gEnc, gDec *ssa.Functi
 					e.r.Violation(c03RDispatch, construct, e.p.Pos(fn.Pos()), fmt.Sprintf("%q is listed as supported but %s never produces output for it with a right-sized key: %s", name, FuncName(e.p, fn), why))
 				}
 			}
+			e.settle(c03RAlias, fname+" "+name+" output storage", pos, alias, "the returned ciphertext/tag/plaintext never share storage with the caller's arguments", "an output aliases a caller-owned input buffer")
 			e.settle(c03RAccept, fname+" "+name+" right sizes", pos, acc, "right-sized inputs are accepted on some path, no path panics, ciphertext/tag have the lengths the other direction insists on", "right-sized input rejected, panicking, or output of the wrong shape")
 			req := spec.enc
 			if d.isDec {
@@ -1096,6 +1115,45 @@ func (e *c03Env) checkSignature(names []string, sign, verify *ssa.Function) {
 		e.checkRoute(FuncName(e.p, verify)+" "+name, e.p.Pos(verify.Pos()), vrun, reqV, hV, wV...)
 		if reqS[0] == "crypto/ecdsa.SignASN1" {
 			esSign[name], esVerify[name] = e.fingerprint(srun), e.fingerprint(vrun)
+			// RFC 7518 §3.4: ES256/ES384/ES512 are ECDSA on P-256/P-384/P-521. A key on that curve
+			// must be accepted, a key on another curve refused with ErrKeyTypeMismatch.
+			want := map[string]string{"ES256": "P-256", "ES384": "P-384", "ES512": "P-521"}[name]
+			for _, d := range []struct {
+				fn   *ssa.Function
+				lens []int64
+			}{{sign, []int64{32}}, {verify, []int64{32, 64}}} {
+				var v c03Verdict
+				consults := true // false: the key object is queried in a way the interpreter does not model
+				for _, curve := range []string{"P-224", "P-256", "P-384", "P-521"} {
+					sc := e.scenario()
+					sc.ECCurve = curve
+					run := e.run(sc, d.fn, e.args(d.fn, name, d.lens...), "ECDSA key on curve "+curve)
+					for _, o := range run.outs {
+						for _, ev := range o.Events {
+							// the curve can reach the code through the exported struct and the Crv() accessor (both
+							// modelled); any other accessor of the jwk object is opaque to the interpreter
+							if strings.HasPrefix(ev.Name, "github.com/lestrrat-go/jwx/v2/") && !strings.HasSuffix(ev.Name, ".Crv") &&
+								!strings.HasSuffix(ev.Name, "jwk.Key.KeyType") && !strings.HasSuffix(ev.Name, "jwk.Key.Raw") && !strings.HasSuffix(ev.Name, "jwk.Key.PublicKey") {
+								consults = false
+							}
+						}
+					}
+					if curve == want {
+						w := e.accepted(run)
+						if w.bad != "" {
+							w.bad += " — " + name + " stands for ECDSA on " + want + ": the matching key is refused (or the path panics)"
+						}
+						v.merge(w)
+					} else {
+						v.merge(e.allRejected(run, e.sentinel("ErrKeyTypeMismatch")))
+					}
+				}
+				if !consults && v.bad != "" {
+					// which curves the code accepts is not visible here (the distinguishability obligation still applies)
+					v.imprecise, v.bad, v.more = v.bad, "", nil
+				}
+				e.settle(c03RKey, FuncName(e.p, d.fn)+" "+name+" curve", e.p.Pos(d.fn.Pos()), v, "a key on "+want+" is accepted, keys on other curves return ErrKeyTypeMismatch", "the curve of the ECDSA key is not bound to the algorithm name as RFC 7518 §3.4 prescribes")
+			}
 		}
 		sc := e.scenario()
 		sc.Fail = true
